@@ -133,6 +133,7 @@ type CertSpec struct {
 	OCSP         []string
 	CRL          []string
 	Freshest     bool
+	FreshestRaw  []byte // with Freshest: the value of the freshest-CRL extension (nil: one distribution point with one URI)
 	Extra        []pkix.Extension
 	IssuerName   *pkix.Name // override the issuer name (nil: parent's subject)
 	EmptySubject bool       // empty subject DN, identity in a critical subjectAltName (RFC 5280 4.1.2.6)
@@ -247,6 +248,9 @@ func Issue(spec CertSpec, parent *Cert, signKey crypto.Signer) *Cert {
 	if spec.Freshest {
 		// a freshest-CRL extension naming one URI (content irrelevant to the code: only presence is read)
 		v := cdpExtValue([][]string{{"http://delta.example/fresh.crl"}})
+		if spec.FreshestRaw != nil {
+			v = spec.FreshestRaw
+		}
 		tmpl.ExtraExtensions = append(tmpl.ExtraExtensions, pkix.Extension{Id: oidFreshest, Value: v})
 	}
 	for _, e := range spec.Extra { // the same benign extension may be requested twice by stacked modifications: keep one
